@@ -211,11 +211,16 @@ Inductive node : Type :=
 Definition node_key (n : node) : string :=
   match n with NLam k _ _ | NSub k _ | NTools k _ => k end.
 
+(* the branch after the last stage (its condition is user code): none (plain edges to END), or a
+   condition that chooses (the first stage if the graph is cyclic, END otherwise), fails, panics *)
+Inductive brb : Type := BrNone | BrOk | BrFail (e : err) | BrPanic (i : N).
+
 Record graph : Type := mkGraph {
   g_dag : bool;                   (* AllPredecessor (no step limit) / Pregel *)
   g_stages : list (list node);    (* stage k+1 is fed by every node of stage k *)
   g_loop : bool;                  (* the last stage branches back to the first, never to END *)
-  g_max : nat                     (* WithMaxRunSteps; 0 = default *)
+  g_max : nat;                    (* WithMaxRunSteps; 0 = default *)
+  g_br : brb                      (* the branch after the last stage *)
 }.
 Definition forest := list graph.
 
@@ -424,6 +429,38 @@ Fixpoint first_lazy (its : list item) : option N :=
 Definition item_errors (its : list item) : list err :=
   flat_map (fun it => match it with IErr e => [e] | ILazy _ => [] end) its.
 
+(* calculateBranch (graph_run.go:721-750) on the run loop's goroutine, after the tasks of the last
+   stage have all succeeded.  In stream mode the condition (invoke-native) is given the last
+   stage's output through collectByInvoke: the stream is read to its end first, so an error item
+   fails the branch (concat) and a lazily panicking stream panics there.  A failure comes back as
+   newGraphRunError("failed to calculate next tasks: %w" ("calculate next step fail ...: %w"
+   ("branch invoke/collect run error: %w" e))): no node path. *)
+Inductive bres : Type := BGo | BFailE (e : err) | BPanicI (i : N).
+
+Definition branch_eval (stream : bool) (br : brb) (it : list item) : bres :=
+  match br with
+  | BrNone => BGo
+  | _ =>
+    match it with
+    | IErr e :: _ => BFailE (concat_fail CollectByInvoke e)
+    | ILazy i :: _ => BPanicI i
+    | [] =>
+      match br with
+      | BrFail e => BFailE (if stream then wrap_stream CollectByInvoke e else e)
+      | BrPanic i => BPanicI i
+      | _ => BGo
+      end
+    end
+  end.
+
+Definition branch_error (e : err) : err := new_graph_run_error (Wrapf (Wrapf (Wrapf e))).
+
+(* A panic that leaves runner.run is recovered by the executor of the sub-graph's node in the
+   parent.  In stream mode the deferred function of runner.run (graph_run.go:106-116) runs
+   onGraphEnd on the nil result while the panic unwinds and panics itself (nil interface
+   conversion): that second panic is what the parent recovers — the original payload is lost. *)
+Definition masked_payload : N := 999999.
+
 Section Run.
   Variable F : forest.
   Variable stream : bool.
@@ -441,7 +478,7 @@ Section Run.
             | GDone it c => NOk it c
             | GFail es => NErr es
             | GInt => NErr [SubInterruptE]
-            | GPanic i => NErr [PanicErr i]       (* the executor of the sub-graph node recovers it *)
+            | GPanic i => NErr [PanicErr (if stream then masked_payload else i)]   (* the executor of the sub-graph node recovers it *)
             | GFuel => NFuel
             end
         end
@@ -452,7 +489,7 @@ Section Run.
 
   (* the main loop: [k] steps remain before the limit, [cur] = stages still ahead in this round;
      [items] = what the input stream of each node of the next stage holds *)
-  Fixpoint steps (rec : graph -> list item -> bool -> gres) (all : list (list node)) (loop : bool)
+  Fixpoint steps (rec : graph -> list item -> bool -> gres) (all : list (list node)) (loop : bool) (br : brb)
                  (k : nat) (cur : list (list node)) (items : list item) (canc : bool) {struct k} : gres :=
     match cur with
     | [] => GDone items canc
@@ -478,8 +515,13 @@ Section Run.
              merges what its predecessors sent *)
           let out n := fanin (List.length st) (fanout n it) in
           match rest with
-          | [] => if loop then steps rec all loop k' all (out (width_of_first all)) c else GDone (out 1%nat) c
-          | _ => steps rec all loop k' rest (out (width_of_first rest)) c
+          | [] =>
+            match branch_eval stream br it with
+            | BGo => if loop then steps rec all loop br k' all (out (width_of_first all)) c else GDone (out 1%nat) c
+            | BFailE e => GFail [branch_error e]
+            | BPanicI i => GPanic i
+            end
+          | _ => steps rec all loop br k' rest (out (width_of_first rest)) c
           end
         end
       end
@@ -489,7 +531,7 @@ Section Run.
   Fixpoint run_graph (d : nat) (g : graph) (items : list item) (canc : bool) : gres :=
     match d with
     | O => GFuel
-    | S d' => steps (run_graph d') (g_stages g) (g_loop g) (effective_max g) (g_stages g)
+    | S d' => steps (run_graph d') (g_stages g) (g_loop g) (g_br g) (effective_max g) (g_stages g)
                     (fanout (width_of_first (g_stages g)) items) canc
     end.
 End Run.
